@@ -19,3 +19,11 @@ Theorem C07_translation_semantics : forall (universe : list N) (p : pyre) (w : l
   den (py_translate universe p) w <-> pyden universe p w.
 Proof. exact py_translate_sem. Qed.
 Print Assumptions C07_translation_semantics.
+
+(* PythonRegex(p).accepts(s) as pyformlang computes it once the pattern has been rewritten: the expression is compiled by
+   to_epsilon_nfa (proved mirror) and run by the epsilon-NFA acceptance loop (proved mirror) *)
+From PFL Require Import Base.ListSet Model.Enfa Model.Thompson Proofs.Rational.
+Theorem C07_accepts_code_path : forall (universe : list N) (c : nat) (p : pyre) (w : list N),
+  accepts (re_enfa_at c (py_translate universe p)) w = true <-> pyden universe p w.
+Proof. exact pyre_accepts. Qed.
+Print Assumptions C07_accepts_code_path.
